@@ -32,11 +32,13 @@ PrefixShapes == <<
   P("Clone",  3, 0, 0, 0, 0, 1, 0),
   P("Wrap",   0, 0, 1, 3, 0, 2, 0) >>
 \* a second family: byte buffer of 7 bytes, views with a size that is not a multiple of the dtype size
+\* (slot 2 = [2,7) bytes, 3 = the same as int16, 4 = slice [2,4) of 3, 5 = the whole buffer as int32, 6 = 4 as int32)
 PrefixOdd == <<
   P("Malloc", 0, 0, 7, 0, 0, 1, 1),
   P("Offset", 1, 0, 2, -1, 0, 1, 0),
   P("Cast",   2, 0, 0, 0, 0, 2, 0),
   P("Slice",  3, 0, 1, 1, 0, 1, 0),
-  P("Cast",   1, 0, 0, 0, 0, 4, 0) >>
+  P("Cast",   1, 0, 0, 0, 0, 4, 0),
+  P("Cast",   4, 0, 0, 0, 0, 4, 0) >>    \* a 2-byte view with a 4-byte dtype: length 0 but not empty
 ShapePrefixes == {PrefixShapes, PrefixOdd}
 =========================================================================
